@@ -195,3 +195,15 @@ Example C11_ex_round_trip_istr : I_from_str_radix true 8 2 [45; 50] 16 = POk [25
 Proof. vm_compute. reflexivity. Qed.
 Example C11_ex_round_trip_le : U_from_radix_le true 8 2 [7; 7; 7] 8 = POk (Some [255; 1]).
 Proof. vm_compute. reflexivity. Qed.
+
+(* ---- tie to the source: radix_base_half (the chunk size of the repeated division in to_radix_digits_le) REGENERATED from
+   /repo/src/buint/radix.rs on every run (Generated/ParseGen.v, tools/rs2v_parse.py; control-flow vocabulary Model/Imp.v) computes
+   exactly the model's radix_base_half: with an iteration budget of at least w it neither panics nor runs out of budget.
+   (The printing loops themselves - Vec, iterators - are hand-modelled and tied by the correspondence check only.) ---- *)
+From Bnum.Model Require Import Imp.
+From Bnum.Generated Require Import ParseGen.
+From Bnum.Proofs Require Import ParseGenTieHalf.
+Theorem C11_radix_base_half_rs_matches_model w N fuel radix b p : 0 < w -> (Z.to_nat w <= fuel)%nat ->
+  RadixOut.radix_base_half w radix = Some (b, p) -> ParseGen.radix_base_half w N fuel radix = Done (b, Z.of_nat p).
+Proof. exact (gen_radix_base_half w N fuel radix b p). Qed.
+Print Assumptions C11_radix_base_half_rs_matches_model.
